@@ -44,6 +44,8 @@ type CheckCfg struct {
 	Assumptions []string   `json:"assumptions"`
 	Trusted     []string   `json:"trusted_base"`
 	ExhaustiveTier string  `json:"exhaustive_tier"` // tier whose case grid enumerates the whole finite parameter space
+	LocksCount     bool    `json:"locks_count"`     // self-deadlocks and leaked locks on any path are violations of this property (C16)
+	Lockset        bool    `json:"lockset"`         // the property speaks about concurrent callers: apply the lockset verdict to the accesses logged by its harnesses
 }
 
 type Config struct {
